@@ -341,7 +341,13 @@ class ScopeUnit(MethodUnit):
     }
 
     def props_of(self, name):
-        return set(self.only) if getattr(self, "only", None) else set(self.props)
+        for p in ("C03", "C05"):
+            if f"{p}." in name:
+                return {p}
+        base = set(self.only) if getattr(self, "only", None) else {"C04", "C06"} & set(self.props)
+        if "scope_left." in name:  # the exit bookkeeping (whole post-state) is C05's as much as C04's / C06's
+            base = base | {"C05"}
+        return base
 
     def model_getattr(self, ip, obj, attr):
         if isinstance(obj, LoopVal):
@@ -756,6 +762,7 @@ def scope_after_havoc(ip, env):
 
 
 class ExitUnit(ScopeUnit):
+    props = ("C03", "C04", "C05", "C06")
     method = "__exit__"
     contract = None
     loops = {("CancelScope.__exit__", 0): LoopSpec(uncancel_loop_inv, modifies={(C, "_pending_uncancellations"), ("Task", "nuncancel")}, after_havoc=scope_after_havoc)}
@@ -783,6 +790,20 @@ class ExitUnit(ScopeUnit):
         ip.ctx.oblige(f"{nm}/post:scope_left.no_other_set_touched", other_sets_untouched(pre, post, s, pat=False), "post")
         ip.ctx.oblige(f"{nm}/post:scope_left.futures_only_get_cancelled", futures_only_get_cancelled(pre, post, pat=False), "post")
         ip.ctx.oblige(f"{nm}/post:pending_uncancellations_settled", z3.Or(pending_(post, s) == 0, z3.Not(own)), "post")
+        # ---- C05: every recorded cancel() request is withdrawn exactly once, or handed to the parent; C03: the restart
+        from specs import c03_delivery as D
+
+        hst, par = host(pre, s), parent(pre, s)
+        n = D.near(pre, par)
+        dn = post.f("Task", "nuncancel", hst) - pre.f("Task", "nuncancel", hst)
+        ip.ctx.oblige(f"{nm}/post:C05.the_timer_is_cancelled_and_cleared", z3.And(thandle(post, s) == 0, z3.Implies(thandle(pre, s) != 0, hcancelled(post, thandle(pre, s)))), "post")
+        ip.ctx.oblige(f"{nm}/post:C05.own_cancellation.every_recorded_request_is_withdrawn_exactly_once", z3.Implies(own, z3.And(dn == pending_(pre, s), pending_(post, s) == 0)), "post")
+        ip.ctx.oblige(
+            f"{nm}/post:C05.otherwise.the_owed_requests_move_to_the_parent",
+            z3.Implies(z3.Not(own), z3.And(dn == 0, pending_(post, s) == 0, z3.Implies(pending_(pre, s) > 0, z3.And(par != 0, pending_(post, par) >= pending_(pre, par) + pending_(pre, s), z3.Implies(par != n, pending_(post, par) == pending_(pre, par) + pending_(pre, s)))))),
+            "post",
+        )
+        ip.ctx.oblige(f"{nm}/post:C03.leaving_restarts_the_delivery_in_the_nearest_cancelled_ancestor", z3.Implies(n != 0, z3.Or(chandle(post, n) != 0, z3.Not(D.live(post, n)))), "post")
         # ---- C04: absorb iff own cancellation, not visible parent cancellation, and an AnyIO cancellation
         swallowed = exc is None and ret is not None and ip.truth(ret) is not False
         ret_t = ip.truth(ret) if ret is not None else False
@@ -812,6 +833,7 @@ class ExitUnit(ScopeUnit):
 
 
 class EnterUnit(ScopeUnit):
+    props = ("C03", "C04", "C06")
     method = "__enter__"
     contract = None
 
@@ -840,9 +862,13 @@ class EnterUnit(ScopeUnit):
         passed = z3.And(deadline_(pre, s) != INF, now(pre) >= deadline_(pre, s))
         ip.ctx.oblige(f"{nm}/post:past_deadline_cancels_immediately_on_entry", z3.Implies(passed, cc(post, s)), "post")
         ip.ctx.oblige(f"{nm}/post:cancelled_on_entry_only_by_a_past_deadline_or_an_earlier_cancel", z3.Implies(cc(post, s), z3.Or(cc(pre, s), passed)), "post")
+        from specs import c03_delivery as D
+
+        ip.ctx.oblige(f"{nm}/post:C03.entering_a_cancelled_scope_schedules_a_delivery_or_no_task_is_live", z3.Implies(cc(post, s), z3.Or(chandle(post, s) != 0, z3.Not(D.live(post, s)))), "post")
 
 
 class CancelUnit(ScopeUnit):
+    props = ("C03", "C04", "C06")
     method = "cancel"
     contract = None
 
@@ -854,6 +880,9 @@ class CancelUnit(ScopeUnit):
         post = H(ip.st)
         ip.ctx.oblige("CancelScope.cancel/post:cancelled_and_timer_disarmed", z3.And(z3.BoolVal(exc is None), cc(post, s), z3.Implies(z3.Not(cc(pre, s)), z3.And(thandle(post, s) == 0, z3.Implies(thandle(pre, s) != 0, hcancelled(post, thandle(pre, s)))))), "post")
         ip.ctx.oblige("CancelScope.cancel/post:idempotent", z3.Implies(cc(pre, s), scope_fields_same(pre, post, s)), "post")
+        from specs import c03_delivery as D
+
+        ip.ctx.oblige("CancelScope.cancel/post:C03.cancelling_an_entered_scope_schedules_a_delivery_or_no_task_is_live", z3.Implies(z3.And(z3.Not(cc(pre, s)), active(pre, s)), z3.Or(chandle(post, s) != 0, z3.Not(D.live(post, s)))), "post")
 
 
 def timer_callback_name():
@@ -941,6 +970,7 @@ class DeadlineSetterUnit(ScopeUnit):
 
 
 class ShieldSetterUnit(ScopeUnit):
+    props = ("C03", "C04")
     only = ("C04",)
     method = "shield"
     is_setter = True
@@ -955,6 +985,10 @@ class ShieldSetterUnit(ScopeUnit):
         s = a.self
         post = H(ip.st)
         ip.ctx.oblige("CancelScope.shield.setter/post:shield_assigned_nothing_else", z3.And(z3.BoolVal(exc is None), shield(post, s) == self.value.t, scope_fields_same(pre, post, s, except_=("_shield", "_pending_uncancellations"))), "post")
+        from specs import c03_delivery as D
+
+        n = D.near(post, parent(post, s))
+        ip.ctx.oblige("CancelScope.shield.setter/post:C03.unshielding_restarts_the_delivery_in_the_nearest_cancelled_ancestor", z3.Implies(z3.And(shield(pre, s), z3.Not(self.value.t), n != 0), z3.Or(chandle(post, n) != 0, z3.Not(D.live(post, n)))), "post")
 
 
 class InitUnit(ScopeUnit):
@@ -1166,3 +1200,8 @@ def timeout_units():
 
 
 UNITS = [InitUnit, EffUnit, VisibleUnit, EnterUnit, ExitUnit, CancelUnit, *timeout_units(), FailAtUnit, EffectiveDeadlineUnit, DeadlineSetterUnit, ShieldSetterUnit, getter_unit("cancel_called", cc, BOOL), getter_unit("cancelled_caught", caught, BOOL), getter_unit("shield", shield, BOOL)]
+
+# the delivery walk (C03 / C05 / C04(b)): proves the DELIVER / RESTART contracts the units above assume
+from specs import c03_delivery as _delivery  # noqa: E402
+
+UNITS += _delivery.UNITS
